@@ -769,7 +769,7 @@ func cReasons(p *Program, r *Report, rule string) {
 						}
 						if fn := p.FuncOpt(name); fn != nil {
 							okAll, why := true, ""
-							for _, b := range fn.Blocks {
+							for _, b := range p.blocksOf(fn) {
 								for _, in := range b.Instrs {
 									if ret, ok := in.(*ssa.Return); ok && len(ret.Results) > 0 {
 										last := ret.Results[len(ret.Results)-1]
